@@ -234,6 +234,11 @@ var c08FieldScripts = []string{
 	`return sprintf("%v %s %d", F, F, F);`,
 	`return keys(F);`,
 	`return G;`,
+	`return len(string(G));`,
+	`x = sprintf("%v|%s", G, G); return len(x) > 0;`,
+	`n = 0; foreach k, v in G { n++; x = string(v); } return n;`,
+	`return len(keys(G)) + len(string(keys(G)));`,
+	`return G == G;`,
 	`function id(a) { return a; } return id(F);`,
 	`return !F;`,
 	`return -F;`,
@@ -329,6 +334,29 @@ var c08LexEdges = []string{
 	"\xef\xbb\xbfreturn 1;", "return 1;\r\n", "x = 1;\r\nreturn x;\r\n", "\xff\xfereturn 1;", "return 1;\x1a", "//", "// comment", "/* c", "#", "@", "$", "$x", "~", "^", "&", "|", "\\", "\x00", "\xff", "\xc3", "\xe2\x82", "\r", "\r\n", "\t", "é", "x\x00y", "return \"a\x00b\";",
 }
 
+// valid scripts that are unusual only in what they are made of: long and
+// non-ASCII constants, long names, many constants - prepared, run and dumped
+var c08Unusual = []string{
+	`x = "Съешь ещё этих мягких французских булок"; return len(x);`,
+	`x = "いろはにほへとちりぬるをわかよたれそつねならむうゐのおくやま"; return x == x;`,
+	`x = "ΑΒΓΔΕΖΗΘΙΚΛΜΝΞΟΠΡΣΤΥΦΧΨΩ αβγδεζηθικλμνξοπρστυφχψω"; return x ~= /ω$/;`,
+	`x = "😀😃😄😁😆😅😂🤣😊😇🙂🙃😉😌😍🥰😘😗😙😚"; return len(x);`,
+	`x = "` + strings.Repeat("é", 58) + `"; y = "` + strings.Repeat("ü", 61) + `"; return x + y;`,
+	`x = "` + strings.Repeat("a", 59) + `é"; return x;`,
+	`x = "tab\there \"quoted\" and a newline\nand a second line that is rather long, longer than sixty characters"; return x;`,
+	`return "%d %s %v %% 100% literally";`,
+	`a_rather_long_variable_name_that_goes_on_and_on_and_on_for_more_than_sixty_characters = 1; return a_rather_long_variable_name_that_goes_on_and_on_and_on_for_more_than_sixty_characters;`,
+	`function a_function_with_a_very_long_name_indeed_more_than_sixty_characters_long(x) { return x; } return a_function_with_a_very_long_name_indeed_more_than_sixty_characters_long(1);`,
+	`x = /^(?:[a-z0-9!#$%&'*+=?^_{|}~-]+(?:\.[a-z0-9!#$%&'*+=?^_{|}~-]+)*)@(?:[a-z0-9](?:[a-z0-9-]*[a-z0-9])?\.)+[a-z0-9]$/i; return S ~= x;`,
+	`x = [1.5, 2.25, 1234567.890123, 0.000001, 99999999999, -3]; return x;`,
+	`x = {"ключ": "значение", "键": "值", "🔑": [1, "два", 3.0]}; return keys(x);`,
+	`return 60 * 60 * 24 * 365 + 70000 - 1;`,
+	`return [65534, 65535, 65536, 70000 * 2, 300 * 300, 3 - 10];`,
+	"x = 1; // a comment with ünïcödé in it, and it is a long comment, longer than sixty characters surely\nreturn x;",
+	`x = "line one
+line two, inside one string literal that spans lines and contains ünïcödé"; return len(x);`,
+}
+
 // scripts that make one process see very many distinct things of one kind
 var c08Bulk = []struct{ name, text string }{
 	{"distinct regular expressions via match", "n = 0; foreach i in 1..2500 { if (match(S, \"^user-\" + string(i) + \"$\")) { n++; } } return n;"},
@@ -419,6 +447,11 @@ func (p *c08) Enumerate(tier string) [][]int32 {
 	for b := range c08Bulk {
 		for opt := 0; opt < 2; opt++ {
 			out = append(out, []int32{18, int32(b), int32(opt), int32((b + opt) % 2)})
+		}
+	}
+	for u := range c08Unusual {
+		for opt := 0; opt < 2; opt++ {
+			out = append(out, []int32{19, int32(u), int32(opt)})
 		}
 	}
 	for e := range c08EscapeChars {
@@ -743,7 +776,7 @@ func (p *c08) mutate(c *verifsim.Chooser, text string) (string, string) {
 func (p *c08) Run(c *verifsim.Chooser, st *Stats, render bool) *Outcome {
 	o := &Outcome{}
 	// weighted: 0 history x5, hostile text x3, tables x1 each, nesting, recursion
-	mode := []int{0, 1, 2, 3, 4, 5, 0, 0, 0, 0, 3, 3, 6, 7, 8, 9, 10, 11, 12}[c.Intn(19)]
+	mode := []int{0, 1, 2, 3, 4, 5, 0, 0, 0, 0, 3, 3, 6, 7, 8, 9, 10, 11, 12, 13}[c.Intn(20)]
 	sample := map[string]interface{}{}
 	defer func() {
 		if render {
@@ -759,6 +792,13 @@ func (p *c08) Run(c *verifsim.Chooser, st *Stats, render bool) *Outcome {
 		ob := p.objs[c.Intn(len(p.objs))]
 		api := c.Intn(2)
 		opt := c.Intn(2) == 0
+		if strings.HasPrefix(ob.name, "forty ") && strings.Contains(text, "G") && text != "return G;" {
+			// printing or walking a value with 2^40 paths needs more memory
+			// than any host has: the property's own exclusion (the object is
+			// in the table for what the *conversion* does with it)
+			st.probe("excluded:prints-a-value-with-2^40-paths")
+			return o
+		}
 		currentDesc.Store("object-table " + ob.name)
 		sample["mode"], sample["script"], sample["object"], sample["front_end"] = "odd-object table", text, ob.name, []string{"Execute", "Run"}[api]
 		o.Digest.Str(text + ob.name)
@@ -851,6 +891,34 @@ func (p *c08) Run(c *verifsim.Chooser, st *Stats, render bool) *Outcome {
 		o.Nontrivial = true
 		st.fault("builtin-odd-arguments")
 		p.prepareAndPoke(o, st, text, c.Intn(2) == 0, sample)
+	case 13: // valid scripts made of unusual material: prepare, dump, run twice, dump
+		text := c08Unusual[c.Intn(len(c08Unusual))]
+		opt := c.Intn(2) == 0
+		currentDesc.Store("unusual material")
+		sample["mode"], sample["script"] = "valid script of unusual material", text
+		o.Digest.Str("unusual" + text)
+		o.Nontrivial = true
+		st.fault("unusual-material")
+		ev := p.newEval(text, "")
+		err, esc := doPrepare(ev.e, opt)
+		if p.check(o, esc, "Prepare of a valid script") {
+			return o
+		}
+		if err != nil {
+			o.violate("C08/harness", "unusual script does not prepare", "%v\n%s", err, text)
+			return o
+		}
+		for i := 0; i < 2; i++ {
+			_, _, desc := doDump(ev.e)
+			if p.check(o, desc, "Dump of a valid script of unusual material") {
+				return o
+			}
+			r := p.apiCall(ev, i, Obj{A: 1, S: "user@example.com", Items: []int{1}})
+			sample["result"] = r.String()
+			if p.check(o, r.Escaped, "run of a valid script of unusual material") {
+				return o
+			}
+		}
 	case 11: // the same malformed fragment several times in one construct
 		cont := c08Containers[c.Intn(len(c08Containers))]
 		atom := c08BadAtoms[c.Intn(len(c08BadAtoms))]
